@@ -119,7 +119,9 @@ def theorem_names(module):
             if m and ns and ns[-1] == m.group(1):
                 ns.pop()
                 continue
-            m = re.match(r"\s*(?:@\[[^\]]*\]\s*)?(?:private\s+|protected\s+)?theorem\s+(\S+)", line)
+            if re.match(r"\s*(?:@\[[^\]]*\]\s*)?private\s+theorem\s", line):
+                continue     # private helpers cannot be named from outside; the public theorems depend on them
+            m = re.match(r"\s*(?:@\[[^\]]*\]\s*)?(?:protected\s+)?theorem\s+(\S+)", line)
             if m:
                 names.append(".".join(ns + [m.group(1)]))
     return names
